@@ -4,7 +4,7 @@ import common, enumrun, docfix as F
 
 ROWS = [[("a", 1, "p"), ("b", 2, "q"), ("a", 1, "r")], [("a", 1, "p")], []]
 K1S = [None, ["a"], ["c"], ["a", "c"], ["a", "a"], ["b", "a"]]
-K2S = [None, [1], [1, 2], [2, 3]]
+K2S = [None, [1], [1, 2], [2, 3], [1, 1.0], [2.0, 3], [True, 1]]   # incl. value-equal keys spelled differently
 VS = [None, ["z"], ["z", "w"]]
 VK2 = [None, [7]]
 ON_MANY = [None, "first", "all", "none", "bad"]
